@@ -880,6 +880,85 @@ func c14IndexDeps(c *ctx) {
 	}
 }
 
+// ---- a blobpacked store that really packs: one RemoveBlobs call names many packed blobs (the store looks their rows up
+// concurrently inside that call) while other clients read; afterwards none of them may be left ----
+func c14Packed(c *ctx, dir string) {
+	for round := 0; round < c.n(2, 8); round++ {
+		b := newBuilder(filepath.Join(dir, fmt.Sprintf("packed%d", round)))
+		b.wrap = func(n *cfgNode, s blobserver.Storage) blobserver.Storage { return &c14store{s: s} }
+		b.kv = func(kind, dd, n string) map[string]any {
+			return map[string]any{"type": "verifkv14", "inner": kvConf(kind, dd, n)}
+		}
+		root := &cfgNode{Kind: "leaf", Leaf: "blobpacked", Detail: "memory"}
+		if err := b.build(root); err != nil {
+			c.rep.Notes = append(c.rep.Notes, "build packed blobpacked: "+err.Error())
+			return
+		}
+		content := make([]byte, 2<<20+c.rng.Intn(1<<20))
+		c.rng.Read(content)
+		rec := &c04rec{}
+		if _, err := schema.WriteFileFromReader(context.Background(), rec, fmt.Sprintf("c14-%d.bin", round), bytes.NewReader(content)); err != nil {
+			return
+		}
+		var refs []blob.Ref
+		for _, data := range rec.blobs {
+			br := blob.RefFromBytes(data)
+			if _, err := blobserver.Receive(context.Background(), root.sto, br, bytes.NewReader(data)); err != nil {
+				c.violation(-1, "c14-call-fails:blobpacked:receive", "packed-file scenario: "+err.Error(), nil)
+				return
+			}
+			refs = append(refs, br)
+		}
+		where := fmt.Sprintf("blobpacked holding a packed file of %d blobs: one RemoveBlobs call for all of them while two clients stat and fetch (round %d)", len(refs), round)
+		var wg sync.WaitGroup
+		var rmErr error
+		var readErrs []string
+		var emu sync.Mutex
+		wg.Add(1)
+		go func() { defer wg.Done(); rmErr = root.sto.RemoveBlobs(context.Background(), refs) }()
+		for q := 0; q < 2; q++ {
+			wg.Add(1)
+			go func(q int) {
+				defer wg.Done()
+				rng := rand.New(rand.NewSource(int64(round*10 + q)))
+				for i := 0; i < 40; i++ {
+					br := refs[rng.Intn(len(refs))]
+					if _, _, err := fetchAll(root.sto, br); err != nil && !errors.Is(err, os.ErrNotExist) {
+						emu.Lock()
+						readErrs = append(readErrs, err.Error())
+						emu.Unlock()
+					}
+					statAll(root.sto, []blob.Ref{br})
+				}
+			}(q)
+		}
+		fin := make(chan struct{})
+		go func() { wg.Wait(); close(fin) }()
+		select {
+		case <-fin:
+		case <-time.After(60 * time.Second):
+			c.violation(-1, "c14-hang:blobpacked", where+": did not finish within 60 s", nil)
+			return
+		}
+		c.rep.SpecChecks++
+		c.count("backends", "blobpacked with a packed file (one removal of all its blobs)")
+		if rmErr != nil {
+			c.violation(-1, "c14-call-fails:blobpacked:remove", where+": "+rmErr.Error(), nil)
+			continue
+		}
+		left, _ := statAll(root.sto, refs)
+		all, _ := dumpStore(root.sto)
+		if len(left) > 0 || len(all) > 0 {
+			c.violation(-1, "c14-not-linearizable:blobpacked", fmt.Sprintf("%s: the removal was acknowledged and nobody uploaded anything since, yet %d blobs are still stat-ed and %d enumerated", where, len(left), len(all)), nil)
+		}
+		for _, e := range readErrs {
+			c.violation(-1, "c14-call-fails:blobpacked:fetch", where+": "+e, nil)
+			break
+		}
+		root.closeAll()
+	}
+}
+
 func runC14(c *ctx) {
 	c.rep.Rule = "stores: memory, localdisk (also under a queue- directory, where enumerations clean up empty shard directories), files over a VFS that yields around every file-system call, diskpacked (300-byte packs: a roll-over every other upload; memory and leveldb index), blobpacked, encrypt, proxycache, shard, namespace, overlay, replica, cond, every layer and key/value index wrapped so that each lower-layer call is preceded and followed by a random yield or a sleep of up to 200 us; programs of 2-16 clients (16 in the first program per backend, 12 clients on a single blob in the second) x 3-6 calls (receive 30%, fetch 20%, stat 15%, enumerate 10%, remove 25%) over 2-5 blobs shared by all clients (the empty blob included), then stat+fetch of every blob and an enumerate; every call stamped with a tick of one atomic counter before and after; per ref, the calls (an enumerate counts as a read of every ref) go to the judge of coq/Model/C14.v; " +
 		"index+corpus: 2-6 feeders deliver permanodes and set/remove-attribute claims (each permanode's claims by one feeder, dates ascending) while 1-5 queriers run the search handler's query 'permanodes with tag=x' (sorted and unsorted) and describes; per permanode, claims are writes and queries are reads; dependency races: a file schema blob is uploaded, the blob source answers the index's fetch of its chunk with 'not there' and, before that answer arrives, another client uploads the chunk and has it indexed completely: afterwards every acknowledged file must be indexed and nothing may still wait; the harness binary is built with -race and every report of the detector is a violation; non-trivial = a ref history with at least one pair of overlapping calls"
@@ -891,6 +970,7 @@ func runC14(c *ctx) {
 	defer os.RemoveAll(dir)
 	_ = rand.Int
 	c14Store(c, dir)
+	c14Packed(c, dir)
 	c14Index(c, dir)
 	c14IndexDeps(c)
 }
